@@ -14,6 +14,8 @@ SEEDS = ["2016-10-06", "20161006", "2016-280", "2016280", "2016-W40-4", "2016W40
          "2016-W40-4T12:34:56+00:00", "2016280T1234Z", "12:34:56", "12:34:56.5", "T12:34", "0001-01-01T00:00:00Z", "9999-12-31T23:59:59.999999Z",
          "P1Y2M3DT4H5M6S", "P2W", "PT36H", "P1.5D", "PT0.000001S", "P1Y", "PT1M", "P1M", "P3Y6M4DT12H30M5S", "PT99999999999S",
          "2007-03-01T13:00:00Z/2008-05-11T15:30:00Z", "2007-03-01T13:00:00Z/P1Y2M10DT2H30M", "P1Y2M10DT2H30M/2008-05-11T15:30:00Z",
+         "2007-03-01T13:00:00Z/PT0S", "P0D/2008-05-11T15:30:00Z", "2007-03-01T13:00:00/P0Y0M0DT0H0M0S", "PT0S", "P0W", "P0Y",
+         "2007-03-01T13:00:00Z/PT1S", "2007-03-01/2007-03-01", "2016-10-06T00:00:00+00:00/PT0.0S",
          "2016-10-06 12:34:56", "1975-05-21 22:00:00", "2016-13-01", "2016-02-30", "2016-W54", "2016-367", "now",
          "2016:10:06 12:34:56", "2016/10/06", "2016:10", "2016/10", "201610", "2016:10 12:34", "2016/10 1:2:3.5", "12:34"]
 RANDOM_EXTRA = ["", " ", "T", "P", "PT", "-", "+", "::", "2016-10-06T", "2016-10-06T12:34:56+", "٢٠١٦-١٠-٠٦", "２０１６-10-06", "2016‐10‐06",
